@@ -55,13 +55,35 @@ package extrude
 //@   props C01
 //@ func PathPoints2 frameonly
 //@   props C01
-//@ func makeShape frameonly
-//@   props C01
+// makeShape: one ring of len(shape) vertices and normals per path point; every index of the side quads (an open shape stops
+// before the last ring, a closed one wraps to ring 0) is one of those vertices.
+//@ func makeShape
+//@   props C01 C02
+//@   returns r
+//@   ensures [C02] well_formed_lengths: modeling.sameLen(r)
+//@   ensures [C02] well_formed_indices: modeling.idxOK(r)
+//@   ensures [C02] well_formed_topology: modeling.topoOK(r)
+//@   ensures [C02] counts: has(r.v3Data, "Position") && len(r.v3Data["Position"]) == len(path) * len(shape) && has(r.v3Data, "Normal") && len(r.v3Data["Normal"]) == len(path) * len(shape) && r.topology == modeling.TriangleTopology
+//@   loop 1:
+//@     invariant [C02] rings: 0 <= $i && $i <= len(path) && len(vertices) == $i * len(shape) && len(normals) == $i * len(shape) && fresh(vertices) && fresh(normals) && ref(vertices) != ref(normals)
+//@   loop 2:
+//@     invariant [C02] bands: 0 <= $i && $i <= len(path) && sides == len(shape) && len(vertices) == len(path) * sides && len(normals) == len(path) * sides && len(tris) % 3 == 0 && fresh(tris)
+//@     invariant [C02] band_indices: forall k int :: 0 <= k && k < len(tris) ==> 0 <= tris[k] && tris[k] < len(path) * sides
+//@   loop 3:
+//@     invariant [C02] band: 0 <= sideIndex && sideIndex <= sides && sides == len(shape) && 0 <= pathIndex && pathIndex < len(path) && bottom == pathIndex * sides && (top == (pathIndex + 1) * sides && pathIndex < len(path) - 1 || top == 0) && len(vertices) == len(path) * sides && len(normals) == len(path) * sides && len(tris) % 3 == 0 && fresh(tris)
+//@     invariant [C02] band_indices: forall k int :: 0 <= k && k < len(tris) ==> 0 <= tris[k] && tris[k] < len(path) * sides
 //@ func Shape frameonly
 //@   props C01
 //@ func ClosedShape frameonly
 //@   props C01
-//@ func ProjectFace frameonly
-//@   props C01
+// ProjectFace: one point and one normal per shape point, in two fresh, distinct arrays.
+//@ func ProjectFace
+//@   props C01 C02
+//@   returns pts, norms
+//@   ensures [C02] one_per_shape_point: len(pts) == len(shape) && len(norms) == len(shape) && fresh(pts) && fresh(norms)
+//@   loop 1:
+//@     invariant [C02] sizes: 0 <= i && i <= len(shape) && len(outerPoints) == len(shape) && len(outerNormals) == len(shape) && fresh(outerPoints) && fresh(outerNormals)
+//@   loop 2:
+//@     invariant [C02] sizes: 0 <= i && i <= len(shape) && len(outerPoints) == len(shape) && len(outerNormals) == len(shape) && fresh(outerPoints) && fresh(outerNormals)
 //@ func GetPlaneOuterPoints frameonly
 //@   props C01
